@@ -9,6 +9,7 @@ import (
 	"math/big"
 	"math/rand"
 	"os"
+	"runtime/pprof"
 	"sort"
 	"strings"
 	"sync"
@@ -85,6 +86,12 @@ func main() {
 	specFile := flag.String("spec", "", "spec JSON")
 	out := flag.String("out", "", "result JSON")
 	flag.Parse()
+	if pf := os.Getenv("GOSYM_CPUPROF"); pf != "" {
+		if f, err := os.Create(pf); err == nil {
+			pprof.StartCPUProfile(f)
+			defer pprof.StopCPUProfile()
+		}
+	}
 	data, err := os.ReadFile(*specFile)
 	if err != nil {
 		fatal(err)
